@@ -388,6 +388,107 @@ case_refs_exhausted(long p)
     /* no object may have been stored under a reference number that was already in use for its tag: fc_parse checks duplicates */
 }
 
+/* the reference counter has reached 65535 but free numbers remain: every number handed out afterwards, by Hnewref and by the
+   interfaces that call it, must be unused at that moment (no wrap of the counter to a small value that is "next") */
+static uint8 g_used[65536];
+static void
+snapshot_refs(int32 f) /* the reference numbers in use right now, for any tag */
+{
+    uint16 t = 0, r = 0;
+    int32  o, l;
+    memset(g_used, 0, sizeof g_used);
+    while (Hfind(f, DFTAG_WILDCARD, DFREF_WILDCARD, &t, &r, &o, &l, DF_FORWARD) != FAIL)
+        g_used[r] = 1;
+}
+static int
+ref_in_use(int32 f, uint16 ref)
+{
+    (void)f;
+    return g_used[ref];
+}
+static void
+case_newref_limit(long p)
+{
+    static const uint16 USED[3][8] = {{1, 2, 5, 65535, 0}, {65535, 0}, {1, 2, 3, 4, 6, 7, 65535, 0}};
+    vfs_remove_file(PATH);
+    int32 f = Hopen(PATH, DFACC_CREATE, 16);
+    uint8 b[4] = {1, 2, 3, 4};
+    char  used[80] = "";
+    for (int i = 0; USED[p][i]; i++) {
+        Hputelement(f, 1000, USED[p][i], b, 4);
+        snprintf(used + strlen(used), sizeof used - strlen(used), "%s%u", i ? "," : "", USED[p][i]);
+    }
+    snprintf(g_case, sizeof g_case, "reference numbers {%s} in use (counter at 65535), then 3 x Hnewref + VSattach(-1) + Vattach(-1) + GRcreate", used);
+    mc_set_case("%s", g_case);
+    for (int k = 0; k < 3; k++) {
+        snapshot_refs(f);
+        uint16 r = Hnewref(f);
+        if (r == 0) {
+            expect(MUST_OK, 1, "Hnewref:free-numbers-remain");
+            break;
+        }
+        if (ref_in_use(f, r)) {
+            mc_violation("wrapped-or-wrong-value:Hnewref-returns-number-in-use", "%s: Hnewref call %d returned %u which is in use", g_case, k + 1, r);
+            break;
+        }
+        Hputelement(f, 1001, r, b, 4);
+    }
+    Vstart(f);
+    for (int k = 0; k < 3; k++) {
+        snapshot_refs(f);
+        int32  id = k == 0 ? VSattach(f, -1, "w") : k == 1 ? Vattach(f, -1, "w") : FAIL;
+        int32  G = FAIL;
+        uint16 r = 0;
+        if (k == 2) {
+            int32 d[2] = {2, 2};
+            G  = GRstart(f);
+            id = GRcreate(G, "img", 1, DFNT_UINT8, 0, d);
+            r  = id == FAIL ? 0 : GRidtoref(id);
+        }
+        else
+            r = id == FAIL ? 0 : (uint16)(k == 0 ? VSQueryref(id) : VQueryref(id));
+        static const char *W[] = {"VSattach(-1)", "Vattach(-1)", "GRcreate"};
+        if (id == FAIL) {
+            char what[64];
+            snprintf(what, sizeof what, "%s:free-numbers-remain", W[k]);
+            expect(MUST_OK, 1, what);
+        }
+        else if (ref_in_use(f, r))
+            mc_violation("wrapped-or-wrong-value:new-object-gets-number-in-use", "%s: the object created by %s got reference number %u which is in use", g_case, W[k], r);
+        if (id != FAIL) {
+            if (k == 0) {
+                VSsetname(id, "v");
+                VSfdefine(id, "x", DFNT_UINT8, 1);
+                VSsetfields(id, "x");
+                VSwrite(id, b, 1, FULL_INTERLACE);
+                VSdetach(id);
+            }
+            else if (k == 1) {
+                Vsetname(id, "g");
+                Vdetach(id);
+            }
+            else {
+                int32 st[2] = {0, 0}, d[2] = {2, 2};
+                GRwriteimage(id, st, NULL, d, b);
+                GRendaccess(id);
+            }
+        }
+        if (G != FAIL)
+            GRend(G);
+    }
+    Vend(f);
+    expect(MUST_OK, Hclose(f) == FAIL, "Hclose");
+    /* the original objects are still there */
+    f = Hopen(PATH, DFACC_READ, 0);
+    for (int i = 0; USED[p][i]; i++) {
+        uint8 r4[4] = {0};
+        if (Hgetelement(f, 1000, USED[p][i], r4) != 4 || memcmp(r4, b, 4))
+            mc_violation("wrapped-or-wrong-value:object-overwritten-after-counter-limit", "%s: element (1000,%u) no longer reads back", g_case, USED[p][i]);
+    }
+    Hclose(f);
+    followup(PATH, "newref-limit", 0);
+}
+
 /* ================================================================== C. Vgroup member count is 16-bit */
 static void
 case_vgroup_members(long p)
@@ -1067,6 +1168,7 @@ static const family_t FAM[] = {
     {"setlength/HLcreate-huge", case_setlength, 8, 8},
     {"linked-second-block", case_linked_second_block, 3, 3},
     {"refs-exhausted", case_refs_exhausted, 8, 8},
+    {"newref-at-counter-limit", case_newref_limit, 3, 3},
     {"vgroup-members", case_vgroup_members, 4, 4},
     {"vdata-fields", case_vdata_fields, 23, 23},
     {"names", case_names, 12 * 13, 12 * 13},
